@@ -1031,6 +1031,7 @@ def build_models(I):
     reg(_dsl.clsof, m_clsof)
     reg(_dsl.set_keys, m_set_keys)
     reg(_dsl.seq_contains, m_seq_contains)
+    reg(_dsl.set_has, lambda I, a, k: I.contains(a[0], a[1]))
     reg(_dsl.list_of, lambda I, a, k: a[0])
     reg(_dsl.sjoin, m_sjoin)
     reg(_dsl.is_prefix, m_is_prefix)
